@@ -11,10 +11,14 @@ LEVEL_TEXT = ("PARTIAL. Proved in Coq: the process_cff decision logic with the c
               "is on from SPECIALIZE upwards. The model's decision is compared with which combinations actually raise. That the "
               "specialiser, both subroutinisers and the CFF->CFF2 converter preserve drawing operations is library behaviour: it "
               "is observed on the implementation (RecordingPen operations, hmtx and GSUB/GPOS/GDEF bytes identical across the "
-              "3 x 3 x 2 grid for every generated font), not modelled.")
+              "3 x 3 x 2 grid for every generated font), not modelled. The advance a 'CFF ' table carries IS modelled and proved "
+              "(Cff/Width.v, C12_cff_charstring_width_roundtrip): for every advance and every (defaultWidthX, nominalWidthX) the "
+              "charstring operand ufo2ft writes, decoded with the Private dict ufo2ft writes (entries only when non-zero), gives "
+              "the rounded source advance -- compared per glyph and build with the compiled Private dict and the advance "
+              "fontTools decodes from the charstring.")
 LEVEL_NOTE = ("Trusted: Coq kernel, constants reader, harness. fontTools cffLib specializer/CFFToCFF2, cffsubr (tx), compreffor "
               "are environment; rendering equality is an observation over generated fonts.")
-TECHNIQUE = "Coq proof of the CFF decision table (regenerated constants) + decision correspondence + observed rendering equality over the option grid"
+TECHNIQUE = "Coq proof of the CFF decision table (regenerated constants) and of the CFF width encode/decode round trip + correspondence + observed rendering equality over the option grid"
 IMPORTS = "From U2F Require Import Base.Prelude Cff.Decision."
 RULE = ("random component fonts (lines, cubics, quadratics, integer coordinates so that every level rounds alike, kerning + a "
         "liga feature for layout tables; half of them renamed through public.postscriptNames maps that swap, chain or are plain) compiled under optimizeCFF {0,1,2} x subroutinizer {None,cffsubr,compreffor} x cffVersion "
@@ -87,6 +91,7 @@ def explore(ctx):
     from fontTools.ttLib import TTFont
     rng = ctx.subrng("cff")
     cases, meta = [], []
+    wcases, wmeta = [], []
     for i in range(ctx.budget(8, 40)):
         desc = gen_component_font(rng, n=rng.randint(3, 8), widths="int")
         for g in desc["glyphs"]:   # integer coordinates/offsets: rounding is not what is under test here
@@ -154,12 +159,25 @@ def explore(ctx):
                 # the advance stored in each charstring (decoded with the Private dict's default / nominal width) is the hmtx one
                 from fontTools.pens.basePen import NullPen
                 td = tt["CFF "].cff.topDictIndex[0]
+                priv = td.Private
+                # (defaultWidthX, nominalWidthX): the fontinfo values where given, else what optimizeWidths chose (read back)
+                dn = {"explicit-default-0": (0, 543), "explicit-both": (int(desc["glyphs"][0]["width"]), -20)}.get(
+                    wkind, (int(priv.defaultWidthX), int(priv.nominalWidthX)))
+                src_w = {g["name"]: Fr(g["width"]) for g in desc["glyphs"]}
                 for n in order:
                     cs = td.CharStrings[n]
                     cs.draw(NullPen())
                     if cs.width != tt["hmtx"][n][0]:
                         ctx.spec_failure(dict(case, glyph=n), "the 'CFF ' charstring of %r carries advance %r, hmtx says %r" % (n, cs.width, tt["hmtx"][n][0]))
                         break
+                    if not prod and n in src_w:
+                        wcases.append(G.tup(geom.g_q(src_w[n]), G.z(dn[0]), G.z(dn[1]),
+                                            G.opt(None if "defaultWidthX" not in priv.rawDict else G.z(int(priv.rawDict["defaultWidthX"])), "Z"),
+                                            G.opt(None if "nominalWidthX" not in priv.rawDict else G.z(int(priv.rawDict["nominalWidthX"])), "Z"),
+                                            G.z(int(cs.width))))
+                        wmeta.append(dict(case, glyph=n, source_width=str(src_w[n]), default_nominal=list(dn),
+                                          private_rawDict={k: priv.rawDict[k] for k in ("defaultWidthX", "nominalWidthX") if k in priv.rawDict},
+                                          decoded_advance=cs.width))
             if obs["cff_tag"] != ("CFF2" if ver == 2 else "CFF "):
                 ctx.spec_failure(case, "requested cffVersion %d but the font has %r" % (ver, obs["cff_tag"]))
             if base is None:
@@ -184,6 +202,19 @@ def explore(ctx):
             if obs["layout"] != base["layout"]:
                 ctx.spec_failure(case, "layout table bytes differ from the baseline build")
     variable_section(ctx)
+    wvals = ctx.coq_eval("From Coq Require Import QArith Qcanon.\nFrom U2F Require Import Base.Prelude Geometry.Model Cff.Width.",
+                         "fun c : (Qc * Z * Z * option Z * option Z * Z) => let '(w, d, n, pd, pn, adv) := c in "
+                         "(if option_eqb Z.eqb (p_default (write_private d n)) pd && option_eqb Z.eqb (p_nominal (write_private d n)) pn "
+                         "then 1 else 0) + (if Z.eqb (cff_advance w d n) adv && Z.eqb adv (otRound w) then 2 else 0)", wcases, chunk=400, tag="Width")
+    if wcases:
+        ctx.klass("cff width model cases (glyph x build)", len(wcases))
+    for v, case in zip(wvals, wmeta):
+        if v is None:
+            continue
+        if not v & 2:
+            ctx.spec_failure(case, "the advance decoded from the 'CFF ' charstring is not the rounded source advance (model cff_advance)")
+        elif not v & 1:
+            ctx.corr_mismatch(case, "Private dict width entries differ from the model's write_private (written iff non-zero)")
     vals = ctx.coq_eval(IMPORTS, FN, cases, chunk=400, tag="Dec")
     for v, case in zip(vals, meta):
         if v is None:
